@@ -498,6 +498,80 @@ def nth_default_cases(res, rng, tier):
     return cases
 
 
+def default_history_cases(res, rng, tier):
+    """>= 3 valuations in a row on ONE underlying object, for every default-time underlying class (DefaultTime, NthDefaultTimes,
+    DefaultTimeNthUnderlying; LOG and identity representation), mixing paths on which a name defaults with paths on which it
+    does not: every value must equal the value on a FRESH object (history-freeness) and the model's value (cases for nth_check)"""
+    import numpy as np
+    from rpylib.product import underlying as U
+    cases = []
+    for it in range(90 if tier == "quick" else 900):
+        cls = ["DefaultTime", "NthDefaultTimes", "DefaultTimeNthUnderlying"][it % 3]
+        lg = (it // 3) % 2 == 0
+        d = 1 if cls == "DefaultTime" else rng.randrange(2, 5)
+        levels = [-dy(rng, 0.25, 1.5, 8) for _ in range(d)]
+        k = rng.randrange(1, d + 1)
+
+        def make():
+            if cls == "DefaultTime":
+                o = U.DefaultTime(levels[0])
+            elif cls == "NthDefaultTimes":
+                o = U.NthDefaultTimes(list(levels), k)
+            else:
+                o = U.DefaultTimeNthUnderlying(list(levels), k)
+            o.update(rep_enum(lg))
+            return o
+
+        def gen_row(defaults, n):
+            """log-jump path (LOG) or its level path 2^j (identity: log-ratios are multiples of ln 2, never within 1e-9 of a dyadic level)"""
+            x, row = 0, [0]
+            where = rng.randrange(1, n) if defaults else None
+            for i in range(1, n):
+                x += (-3 if i == where else rng.choice([0, 0, 1]))
+                row.append(x)
+            return [float(v) for v in row] if lg else [2.0 ** v for v in row]
+
+        obj = make()
+        n_val = rng.randrange(3, 6)
+        pattern = [[True] * d, [False] * d] + [[rng.random() < 0.5 for _ in range(d)] for _ in range(n_val - 2)]
+        rng.shuffle(pattern)
+        if it % 2 == 0:
+            pattern[0], pattern[1] = [True] * d, [False] * d          # default first, then a default-free path
+        history = []
+        for step, pat in enumerate(pattern):
+            n = rng.randrange(3, 9)
+            times = gen_times(rng, n)
+            rows = [gen_row(pat[j], n) for j in range(d)]
+            arr = np.array(rows[0]) if cls == "DefaultTime" else np.array(rows)
+            t = np.array(times)
+            got = fin(obj.value(t, arr.copy(), arr.copy()))
+            fresh = fin(make().value(t, arr.copy(), arr.copy()))
+            history.append({"defaults": pat, "times": times, "rows": rows, "got": got, "fresh": fresh})
+            res.count(("default-history", cls, lg, d, k, step, tuple(times), repr(rows)), nontrivial=step >= 1, kind=f"{cls} reused object")
+            res.bump("default_history_pattern", f"{'default' if any(pat) else 'no default'} at valuation {min(step, 3)}")
+            stale = got != fresh
+            if stale:
+                res.violation("a default-time underlying object returns a value that depends on the paths valued earlier on the same object",
+                              {"kind": "default-history", "cls": cls, "log": lg, "levels": levels, "index": k, "valuations": history})
+            # model: DefaultTime = first default of the single row; DefaultTimeNthUnderlying = that of row k; NthDefaultTimes = order statistic
+            if cls == "NthDefaultTimes":
+                m_levels, m_rows, m_k = levels, rows, k - 1
+            else:
+                j = 0 if cls == "DefaultTime" else k - 1
+                m_levels, m_rows, m_k = [levels[j]], [rows[j]], 0
+            lt = {}
+            if not lg:
+                for row in m_rows:
+                    for x, l in zip(row, np.log(np.array(row, dtype=float))):
+                        lt[x] = float(l)
+            cases.append(f"({natlit(m_k)}, {lst([qlit(a) for a in m_levels])}, {lst([qlit(x) for x in times])}, "
+                         f"{lst([lst([qlit(x) for x in row]) for row in m_rows])}, {blit(lg)}, {table_lit(lt)}, "
+                         f"{'UInf' if got is None else '(UFin ' + qlit(got) + ')'})")
+            if stale:
+                break            # the case above also breaks the correspondence with the (history-free) model
+    return cases
+
+
 def representation_oracle(res, rng, tier):
     """the SAME spot path under the identity and the LOG representation on fresh products: every payoff class, in
     particular barriers (whose level is in spot units), must give the same value"""
@@ -617,7 +691,7 @@ def correspond(res):
     static_oracle(res, rng, tier, payoff_cases)
     barrier_oracle(res, rng, tier, payoff_cases)
     underlying_oracle(res, rng, tier)
-    nth_cases = nth_default_cases(res, rng, tier)
+    nth_cases = nth_default_cases(res, rng, tier) + default_history_cases(res, rng, tier)
     mlmc_oracle(res, rng, tier)
     representation_oracle(res, rng, tier)
     lookback_oracle(res)
